@@ -435,6 +435,8 @@ pub struct TwoLevelIterator {
 
     /// The block handle used to get the data block in the [`TwoLevelIterator::data_block`] field.
     data_block_handle: Option<BlockHandle>,
+    /// The error that ended the last `next` or `prev` call, if any. See [`RainDbIterator::status`].
+    maybe_error: Option<RainDBError>,
 }
 
 /// Private methods
@@ -449,6 +451,7 @@ impl TwoLevelIterator {
             index_block_iter,
             maybe_data_block_iter: None,
             data_block_handle: None,
+            maybe_error: None,
         }
     }
 
@@ -546,6 +549,7 @@ impl RainDbIterator for TwoLevelIterator {
     }
 
     fn seek(&mut self, target: &Self::Key) -> Result<(), Self::Error> {
+        self.maybe_error = None;
         self.index_block_iter.seek(target)?;
         self.init_data_block()?;
 
@@ -559,6 +563,7 @@ impl RainDbIterator for TwoLevelIterator {
     }
 
     fn seek_to_first(&mut self) -> Result<(), Self::Error> {
+        self.maybe_error = None;
         self.index_block_iter.seek_to_first()?;
         self.init_data_block()?;
 
@@ -575,6 +580,7 @@ impl RainDbIterator for TwoLevelIterator {
     }
 
     fn seek_to_last(&mut self) -> Result<(), Self::Error> {
+        self.maybe_error = None;
         self.index_block_iter.seek_to_last()?;
         self.init_data_block()?;
 
@@ -608,6 +614,9 @@ impl RainDbIterator for TwoLevelIterator {
                     error: {}",
                     error
                 );
+                self.maybe_data_block_iter = None;
+                self.data_block_handle = None;
+                self.maybe_error = Some(error.into());
                 return None;
             }
         }
@@ -638,6 +647,9 @@ impl RainDbIterator for TwoLevelIterator {
                     error: {}",
                     error
                 );
+                self.maybe_data_block_iter = None;
+                self.data_block_handle = None;
+                self.maybe_error = Some(error.into());
                 return None;
             }
         }
@@ -656,6 +668,10 @@ impl RainDbIterator for TwoLevelIterator {
         }
 
         self.maybe_data_block_iter.as_ref().unwrap().current()
+    }
+
+    fn status(&self) -> Option<Self::Error> {
+        self.maybe_error.clone()
     }
 }
 
